@@ -375,3 +375,80 @@ def rule_validation_table(repo, rep):
     else:
       rep.unknown(R, key, site(f), v[1])
   rep.floor('validation scenarios interpreted', len(scen), 300)
+
+
+def rule_validate_vector(repo, rep):
+  R = 'R-INTERP:validate-vector-table'
+  rep.rule(R, '_util.validate_vector interpreted for inputs whose squeezed '
+           'array has 0, 1, 2 or 3 dimensions: a scalar or a vector comes '
+           'back as a 1-D array, anything else is a ValueError')
+  f = repo.get_func('_util.validate_vector')
+  if f is None:
+    rep.unknown(R, '_util.validate_vector', '', 'function vanished')
+    return
+  rep.analysed(f)
+  ps = f.params()
+
+  class W(World):
+    def __init__(self, nd):
+      self.nd = nd
+
+    def attr(self, it, v, attr, node):
+      if tg(v) == 'vec' and attr == 'ndim':
+        return v[1]
+      if tg(v) == 'vec' and attr == 'shape':
+        return tuple([4] * v[1])
+      return NotImplemented
+
+    def call(self, it, d, recv, args, kwargs, node):
+      if d.startswith('.'):
+        if d == '.squeeze' and tg(recv) == 'vecraw':
+          return S('vec', self.nd)
+        if d in ('.ravel', '.flatten') and tg(recv) in ('vec', 'vecraw'):
+          return S('vec', 1, 'flattened')
+        if d == '.astype' and tg(recv) in ('vec', 'vecraw'):
+          return recv
+        return NotImplemented
+      short = d.rsplit('.', 1)[-1]
+      if d.startswith('numpy.'):
+        if short in ('asarray', 'array', 'ascontiguousarray') and args and \
+                args[0] == S('u'):
+          return S('vecraw')
+        if short == 'squeeze' and args and tg(args[0]) == 'vecraw':
+          return S('vec', self.nd)
+        if short == 'atleast_1d' and args and tg(args[0]) == 'vec':
+          return S('vec', max(1, args[0][1]))
+        if short == 'ndim' and args and tg(args[0]) == 'vec':
+          return args[0][1]
+      return NotImplemented
+  bad = unk = None
+  for nd in (0, 1, 2, 3):
+    w = W(nd)
+    env = {ps[0]: S('u')}
+    for p_ in ps[1:]:
+      env[p_] = None
+    try:
+      out = Interp(repo, f, w).run(env)
+    except Undecided as u:
+      unk = unk or '%s (%d-d input)' % (u, nd)
+      continue
+    if nd <= 1:
+      if out[0] == 'raise':
+        bad = bad or 'raises %s for a %d-d input' % (out[1][0], nd)
+      elif out[1] != S('vec', 1):
+        bad = bad or 'returns %r for a %d-d input, expected a 1-D array' % (
+            out[1], nd)
+    else:
+      if out[0] != 'raise':
+        bad = bad or 'returns %r for an input that stays %d-dimensional ' \
+            'after squeezing (documented: ValueError)' % (out[1], nd)
+      elif 'ValueError' not in out[1]:
+        bad = bad or 'raises %s, not ValueError, for a %d-d input' % (
+            out[1][0], nd)
+  key = '_util.validate_vector'
+  if bad:
+    rep.refuted(R, key, site(f), bad)
+  elif unk:
+    rep.unknown(R, key, site(f), unk)
+  else:
+    rep.derived(R, key, site(f))
